@@ -83,7 +83,18 @@ VARIES = (
     "a link failure (monotonic clock too), legacy-mode managers under concurrency, a device "
     "stuck in the bootloader after a heartbeat, signer iterations over the whole 16-bit range, "
     "NaN / Infinity as names, private keys given with 0x prefixes or with zero digits at an "
-    "end, empty strings as option values, one-time keys with zero-leading coordinates")
+    "end, empty strings as option values, one-time keys with zero-leading coordinates, "
+    "repeated entries in every list (proof nodes, brothers, blocks, targets, signatures, "
+    "images), JSON objects that repeat a member name, documents handed over as the same dict "
+    "several times, images read through pipes, names that spell a reserved name in another "
+    "case, late answers at the first exchanges of every admin command, attestation keys off "
+    "the curve with constructed signatures, hashes equal only in their first or last bytes, "
+    "compact sizes written the long way, a second attestation from a complete attestation "
+    "file, the SGX platform under concurrency with the manager's own timers sped up, a device "
+    "refusal right before a link failure, faults at every exchange of a repair through the "
+    "bootloader, headers of 64 KiB / 1 MiB / 16 MiB, the Ethereum app of `signapp eth` honest "
+    "and dishonest, every command once on every platform, version bytes of 128 and more, "
+    "status words over every transport")
 
 IDEAS = (
     "a code path only reached through a rarely used command-line option, environment variable or "
